@@ -14,12 +14,16 @@ Record obs := mkobs {
   o_ws : bool;     (* the websocket server was contacted *)
   o_est : bool;    (* the websocket was established *)
   o_k : nat;       (* messages that passed each way on it *)
+  o_in : list N;   (* numbers of the server's messages in the order they arrived on r.In *)
+  o_ack : list N;  (* numbers of the client's messages in the order the server received them *)
+  o_garbled : list N; (* numbers of the server's messages that were sent undecodable (pkg/status run only) *)
   o_closed : bool  (* cancel iteration only: the server saw the TCP connection end within 1 s of the cancellation *)
 }.
 
 Inductive case :=
 | CLoop (l : loopk) (c : cfg) (sch : list sbeh) (cp : cancelpt) (returned : bool) (os : list obs)
-| CBoff (c : cfg) (ops : list bop) (ds : list Z).
+| CBoff (c : cfg) (ops : list bop) (ds : list Z)
+| CBoffJ (mn mx : Z) (ds : list Z).   (* Jitter = true: durations are random, only the bounds are compared *)
 
 Definition ms : Z := 1000000.
 
@@ -33,8 +37,30 @@ Definition timing_ok (w : Z) (o : obs) : bool :=
 Definition close_ok (b : beh) (e : event) (o : obs) : bool :=
   negb (is_success (ev_out e)) || Bool.eqb (o_closed o) (reaches_close (peer_answers b) dial_on_cancel).
 
+(* what passed on an established connection, judged by the pump model of Dial: the server sent
+   0,1,..,sent-1; r.In must show what the reader pump delivers after that many read steps (a prefix, in
+   order, nothing twice), all of it if the server dropped the connection only after the last
+   acknowledgement; the server must have received what the writer pump wrote after that many steps *)
+Definition iotaN (n : nat) : list N := map N.of_nat (seq 0 n).
+Definition msgs_ok (b : beh) (is_cancel_iter : bool) (o : obs) : bool :=
+  let sent := match b with
+              | AcceptThenDrop k | AcceptThenHang k => k
+              | AcceptThenDropW _ => 1%nat
+              | AcceptThenStay _ => o_k o        (* the echo of what the server received *)
+              | _ => O
+              end in
+  let n := length (o_in o) in
+  let m := length (o_ack o) in
+  (* through the reader pump, then (pkg/status run) through the decoding stage, which drops the garbled ones *)
+  let ok m := negb (existsb (N.eqb m) (o_garbled o)) in
+  let through := snd (filt_run ok sent (to_in (pump_run (pumps_init (iotaN sent) []) (repeat PRead sent)), [])) in
+  list_eqb N.eqb (firstn n through) (o_in o) &&
+  list_eqb N.eqb (conn_out (pump_run (pumps_init [] (iotaN m)) (repeat PWrite m))) (o_ack o) &&
+  (is_cancel_iter || match b with AcceptThenDrop k => Nat.eqb n k | _ => true end).
+
 Definition ev_ok (l : loopk) (is_cancel_iter : bool) (b : beh) (e : event) (o : obs) : bool :=
   (negb is_cancel_iter || close_ok b e o) &&
+  (negb (is_success (ev_out e)) || msgs_ok b is_cancel_iter o) &&
   Bool.eqb (contacts_access l) (o_acc o) &&
   Bool.eqb (contacts_ws (ev_out e)) (o_ws o) &&
   Bool.eqb (is_success (ev_out e)) (o_est o) &&
@@ -56,6 +82,9 @@ Definition case_ok (x : case) : bool :=
   match x with
   | CLoop l c sch cp returned os => returned && evs_ok l sch cp 0 (client l c sch cp) os
   | CBoff c ops ds => list_eqb Z.eqb (boff_run c 0 ops) ds
+  | CBoffJ mn mx ds =>
+      (* each observed duration is a value the model allows: the model applied to it gives it back *)
+      forallb (fun d => Z.eqb (backoff_dur_jitter mn mx d) d) ds
   end.
 
 (* non-trivial: a loop case with at least three attempts of which one was preceded by a wait;
@@ -66,6 +95,7 @@ Definition case_nontrivial (x : case) : bool :=
       let es := client l c sch cp in
       (3 <=? length es)%nat && existsb (fun e => 0 <? ev_wait e) es
   | CBoff c ops _ => (4 <=? length (boff_run c 0 ops))%nat
+  | CBoffJ _ _ ds => (4 <=? length ds)%nat
   end.
 
 Definition mismatches (cs : list case) : list N := mismatch_idx case_ok 0 cs.
